@@ -63,6 +63,13 @@ def cases(draw, tier, kind):
     vs = [F.VAR_POOL[(start + i) % len(F.VAR_POOL)] for i in range(nv)]
     p, _ = draw(F.formulas(prof, variables=vs))
     q, _ = draw(F.formulas(prof, variables=vs))
+    if draw(st.integers(0, 9)) == 0:
+        # an operand that is a literal or arithmetic on literals (the laws hold "for all sub-formulas")
+        lit = draw(st.sampled_from([('const', 3.0), ('const', -2.0), ('bin', '-', ('const', 5.0), ('const', 2.0)), ('un', 'abs', ('const', -1.5))]))
+        if draw(st.booleans()):
+            p = lit
+        else:
+            q = lit
     mb = prof.max_bound
     b = draw(st.integers(0, mb))
     a = draw(st.integers(0, b))
@@ -103,7 +110,10 @@ def check(case):
     used = F.fvars(lhs)
     labels = ['law:' + law, 'kind:' + kind] + feature_labels(lhs, n)
     if not used:
-        return DISCARD('no-variable', labels)
+        # a law instantiated with literals only ("for all sub-formulas"): the monitors still need a trace, one declared
+        # variable that the formula does not read supplies its length
+        labels.append('variable-free-operands')
+        used = vs[:1]
     feed = [v for v in vs if v in used]
     w = {v: tr[v] for v in feed}
     ol = evaluate(kind, lhs, feed, w, case.get('spell'))
